@@ -52,12 +52,14 @@ Record st := {
   wrote : list nat;                 (* requests written to the transport (received by the server) *)
   deliver_log : list nat;           (* rids in order of deliver_reply *)
   recv_notifs : list N;             (* notifications dispatched, in order *)
-  taken : list N                    (* notifications returned by take_notification, in order *)
+  taken : list N;                   (* notifications returned by take_notification, in order *)
+  bcast : option exc;               (* the error the worker broadcast to the listeners, if it did *)
+  eof_seen : bool                   (* the worker read end-of-file (the peer closed) *)
 }.
 
 Definition init (q : bool) : st :=
   {| reqs := []; table := []; outq := []; nq := []; connected := true; closing := false; pc := WIdle;
-     qualify := q; wrote := []; deliver_log := []; recv_notifs := []; taken := [] |}.
+     qualify := q; wrote := []; deliver_log := []; recv_notifs := []; taken := []; bcast := None; eof_seen := false |}.
 
 Inductive label :=
 | LReg (rid : nat) (id : N)
@@ -130,51 +132,64 @@ Definition wait_outcome (r : req) (flag : bool) : outcome :=
 Definition with_reqs (s : st) (x : list req) : st :=
   {| reqs := x; table := table s; outq := outq s; nq := nq s; connected := connected s; closing := closing s;
      pc := pc s; qualify := qualify s; wrote := wrote s; deliver_log := deliver_log s;
-     recv_notifs := recv_notifs s; taken := taken s |}.
+     recv_notifs := recv_notifs s; taken := taken s; bcast := bcast s; eof_seen := eof_seen s |}.
 Definition with_table (s : st) (x : list (N * nat)) : st :=
   {| reqs := reqs s; table := x; outq := outq s; nq := nq s; connected := connected s; closing := closing s;
      pc := pc s; qualify := qualify s; wrote := wrote s; deliver_log := deliver_log s;
-     recv_notifs := recv_notifs s; taken := taken s |}.
+     recv_notifs := recv_notifs s; taken := taken s; bcast := bcast s; eof_seen := eof_seen s |}.
 Definition with_pc (s : st) (x : wpc) : st :=
   {| reqs := reqs s; table := table s; outq := outq s; nq := nq s; connected := connected s; closing := closing s;
      pc := x; qualify := qualify s; wrote := wrote s; deliver_log := deliver_log s;
-     recv_notifs := recv_notifs s; taken := taken s |}.
+     recv_notifs := recv_notifs s; taken := taken s; bcast := bcast s; eof_seen := eof_seen s |}.
 Definition with_outq (s : st) (x : list nat) : st :=
   {| reqs := reqs s; table := table s; outq := x; nq := nq s; connected := connected s; closing := closing s;
      pc := pc s; qualify := qualify s; wrote := wrote s; deliver_log := deliver_log s;
-     recv_notifs := recv_notifs s; taken := taken s |}.
+     recv_notifs := recv_notifs s; taken := taken s; bcast := bcast s; eof_seen := eof_seen s |}.
 Definition with_nq (s : st) (x : list N) : st :=
   {| reqs := reqs s; table := table s; outq := outq s; nq := x; connected := connected s; closing := closing s;
      pc := pc s; qualify := qualify s; wrote := wrote s; deliver_log := deliver_log s;
-     recv_notifs := recv_notifs s; taken := taken s |}.
+     recv_notifs := recv_notifs s; taken := taken s; bcast := bcast s; eof_seen := eof_seen s |}.
 Definition with_closed (s : st) : st :=
   {| reqs := reqs s; table := table s; outq := outq s; nq := nq s; connected := false; closing := true;
      pc := pc s; qualify := qualify s; wrote := wrote s; deliver_log := deliver_log s;
-     recv_notifs := recv_notifs s; taken := taken s |}.
+     recv_notifs := recv_notifs s; taken := taken s; bcast := bcast s; eof_seen := eof_seen s |}.
 Definition with_wrote (s : st) (x : list nat) : st :=
   {| reqs := reqs s; table := table s; outq := outq s; nq := nq s; connected := connected s; closing := closing s;
      pc := pc s; qualify := qualify s; wrote := x; deliver_log := deliver_log s;
-     recv_notifs := recv_notifs s; taken := taken s |}.
+     recv_notifs := recv_notifs s; taken := taken s; bcast := bcast s; eof_seen := eof_seen s |}.
 Definition with_dlog (s : st) (x : list nat) : st :=
   {| reqs := reqs s; table := table s; outq := outq s; nq := nq s; connected := connected s; closing := closing s;
      pc := pc s; qualify := qualify s; wrote := wrote s; deliver_log := x;
-     recv_notifs := recv_notifs s; taken := taken s |}.
+     recv_notifs := recv_notifs s; taken := taken s; bcast := bcast s; eof_seen := eof_seen s |}.
 Definition with_rnot (s : st) (x : list N) : st :=
   {| reqs := reqs s; table := table s; outq := outq s; nq := nq s; connected := connected s; closing := closing s;
      pc := pc s; qualify := qualify s; wrote := wrote s; deliver_log := deliver_log s;
-     recv_notifs := x; taken := taken s |}.
+     recv_notifs := x; taken := taken s; bcast := bcast s; eof_seen := eof_seen s |}.
 Definition with_taken (s : st) (x : list N) : st :=
   {| reqs := reqs s; table := table s; outq := outq s; nq := nq s; connected := connected s; closing := closing s;
      pc := pc s; qualify := qualify s; wrote := wrote s; deliver_log := deliver_log s;
-     recv_notifs := recv_notifs s; taken := x |}.
+     recv_notifs := recv_notifs s; taken := x; bcast := bcast s; eof_seen := eof_seen s |}.
+
+Definition with_bcast (s : st) (x : option exc) : st :=
+  {| reqs := reqs s; table := table s; outq := outq s; nq := nq s; connected := connected s; closing := closing s;
+     pc := pc s; qualify := qualify s; wrote := wrote s; deliver_log := deliver_log s;
+     recv_notifs := recv_notifs s; taken := taken s; bcast := x; eof_seen := eof_seen s |}.
+Definition with_eof (s : st) : st :=
+  {| reqs := reqs s; table := table s; outq := outq s; nq := nq s; connected := connected s; closing := closing s;
+     pc := pc s; qualify := qualify s; wrote := wrote s; deliver_log := deliver_log s;
+     recv_notifs := recv_notifs s; taken := taken s; bcast := bcast s; eof_seen := true |}.
 
 Definition is_idle (p : wpc) : bool := match p with WIdle => true | _ => false end.
+(* the worker holds the pending-table lock (RPCReplyListener._lock): from the lookup that found
+   the request until the entry is deleted, and between values() and clear() in errback *)
+Definition holds_tlock (p : wpc) : bool :=
+  match p with WDeliver _ _ | WDel _ | WErrClear _ _ => true | _ => false end.
 
 (* ---------- the transition function ---------- *)
 Definition step (s : st) (l : label) : option st :=
   match l with
   | LReg rid id =>
-      if Nat.eqb rid (length (reqs s)) && negb (memN id (map r_id (reqs s))) then
+      if Nat.eqb rid (length (reqs s)) && negb (memN id (map r_id (reqs s))) && negb (holds_tlock (pc s)) then
         Some (with_table (with_reqs s (reqs s ++ [{| r_id := id; r_st := CReg; r_reply := None; r_error := None; r_ev := false |}]))
                          (tset id rid (table s)))
       else None
@@ -244,12 +259,12 @@ Definition step (s : st) (l : label) : option st :=
       | WDel i => if N.eqb id i then Some (with_pc (with_table s (tdel id (table s))) WIdle) else None
       | _ => None
       end
-  | LReadEof => if is_idle (pc s) then Some (with_pc s (WRaise 1)) else None
+  | LReadEof => if is_idle (pc s) then Some (with_pc (with_eof s) (WRaise 1)) else None
   | LReadErr => if is_idle (pc s) then Some (with_pc s (WRaise 3)) else None
   | LErrBcast e =>
       match pc s with
-      | WRaise e' => if N.eqb e e' then Some (with_pc s (WErrSnap e)) else None
-      | WIdle => if closing s && N.eqb e 1 then Some (with_pc s (WErrSnap e)) else None   (* clean exit *)
+      | WRaise e' => if N.eqb e e' then Some (with_pc (with_bcast s (Some e)) (WErrSnap e)) else None
+      | WIdle => if closing s && N.eqb e 1 then Some (with_pc (with_bcast s (Some e)) (WErrSnap e)) else None   (* clean exit *)
       | _ => None
       end
   | LTValues ids =>
